@@ -56,6 +56,17 @@ def run(ctx, rep):
     ok = any(isinstance(n, ast.For) and unparse(n.iter) == "enumerate(povm.vecs)" and unparse(n.target) == "(element_index, vec)" for n in own_nodes(f.node))
     rep.check(ok, "M2", f, "outcome enumeration (Qst)", "outcomes in the POVM's own order", "rows are not enumerated over enumerate(povm.vecs)", node=f.node)
     # ---- M3
+    check_schedule_reads(ctx, rep)
+    # ---- M4 / M5
+    _m45(ctx, rep)
+    rep.rule("M6", "measurement-process tomography: the model is the process model repeated on the block diagonal, once per explicitly "
+                   "parametrised outcome (m - 1 copies with the constraint built in, m otherwise)", floor=2)
+    _m6(ctx, rep)
+
+
+def check_schedule_reads(ctx, rep):
+    """M3 (also relayed by C20): every object list is indexed by the index the schedule names for that kind"""
+    ix = ctx.ix
     for cq, (shape, tpos) in TOMO.items():
         c = ix.cls(cq)
         short = c.name
@@ -138,8 +149,69 @@ def run(ctx, rep):
                     rep.info("M3", f, con, "list indexed by %s (not a schedule read)" % unparse(idx)[:60])
         if not n_reads:
             rep.undecided("M3", cq, "positions", "no schedule position reads found")
-    # ---- M4 / M5
-    _m45(ctx, rep)
+
+
+def _m6(ctx, rep):
+    """cqpt_to_cqmpt: the measurement-process model repeats the process model once per (explicitly parametrised) outcome on the block
+    diagonal - block_diag(c, c, ...) = kron(I_k, c); kron(c, I_k) interleaves the rows and columns of different outcomes"""
+    from ..symsum import cases, returning
+    from .c12 import _ipoly
+    from ..poly import Poly
+    f = ctx.ix.funcs.get(T + "standard_qmpt.cqpt_to_cqmpt")
+    if f is None:
+        rep.undecided("M6", T + "standard_qmpt", "cqpt_to_cqmpt", "function not found")
+        return
+    cs = cases(f)
+    if not cs:
+        rep.undecided("M6", f, "block structure", "too many paths")
+        return
+    mpar = next((p for p in f.params if p.startswith("m")), None)
+    seen = 0
+    for c in returning(cs):
+        v = c.value
+        a = v.elts[0] if isinstance(v, ast.Tuple) and v.elts else v
+        flag = [pol for t, pol, _ in c.guards if t == "on_para_eq_constraint"]
+        if a is None or len(flag) != 1:
+            continue
+        want = Poly.sym(mpar) - 1 if flag[0] else Poly.sym(mpar)
+        con = "block structure (on_para_eq_constraint=%s)" % flag[0]
+        found = False
+        for n in ast.walk(a):
+            if not isinstance(n, ast.Call):
+                continue
+            nm = (dotted(n.func) or "").split(".")[-1]
+            k = None
+            if nm == "block_diag" and len(n.args) == 1 and isinstance(n.args[0], ast.Starred):
+                e = n.args[0].value
+                if isinstance(e, ast.BinOp) and isinstance(e.op, ast.Mult):
+                    lst, cnt = (e.left, e.right) if isinstance(e.left, ast.List) else (e.right, e.left)
+                    if isinstance(lst, ast.List) and len(lst.elts) == 1:
+                        k = cnt
+            elif nm == "kron" and len(n.args) == 2:
+                def eye(x):
+                    return x.args[0] if isinstance(x, ast.Call) and (dotted(x.func) or "").split(".")[-1] in ("eye", "identity") and x.args else None
+                if eye(n.args[0]) is not None and eye(n.args[1]) is None:
+                    k = eye(n.args[0])
+                elif eye(n.args[1]) is not None and eye(n.args[0]) is None:
+                    found = True
+                    seen += 1
+                    rep.violation("M6", f, con, "%s puts the identity on the RIGHT: rows and columns of different outcomes are interleaved; the model of "
+                                  "outcome x must be the x-th diagonal block (block_diag(c, ..., c) = kron(I, c))" % unparse(n)[:80], node=c.ret_node)
+                    continue
+            if k is None:
+                continue
+            found = True
+            seen += 1
+            try:
+                kp = _ipoly(k, {})
+                rep.check(kp == want, "M6", f, con, "%r diagonal copies of the process model" % kp,
+                          "%r diagonal copies of the process model, expected %r" % (kp, want), node=c.ret_node)
+            except ValueError as ex:
+                rep.undecided("M6", f, con, str(ex))
+        if not found:
+            rep.undecided("M6", f, con, "no block_diag(*[c] * k) / kron(eye(k), c) in the returned matrix")
+    if not seen:
+        rep.undecided("M6", f, "block structure", "no path recognised")
 
 
 def check_model_accessors(ctx, rep, rule: str):
